@@ -170,8 +170,10 @@ func (fl *flow) path(v ssa.Value, d int) string {
 		return "make[]"
 	case *ssa.MakeMap:
 		return "makemap"
-	case *ssa.Next, *ssa.Range:
-		return "iter:" + v.Name()
+	case *ssa.Next:
+		return "next(" + fl.path(x.Iter, d+1) + ")"
+	case *ssa.Range:
+		return fl.path(x.X, d+1)
 	}
 	return fmt.Sprintf("%T:%s", v, v.Name())
 }
@@ -184,7 +186,11 @@ func (fl *flow) sel(base ssa.Value, fv *types.Var, d int) string {
 		return b + ".?"
 	}
 	if fv.Embedded() {
-		return b
+		// only value-embedded structs are elided; an embedded pointer (Store.*Indexer) keeps its name,
+		// otherwise s.Indexer.db and s.db would read the same
+		if _, isPtr := fv.Type().(*types.Pointer); !isPtr {
+			return b
+		}
 	}
 	return b + "." + fv.Name()
 }
